@@ -78,6 +78,13 @@ def run(ctx):
             ctx.fail(f["key"], f["msg"], replay={"driver": "fc-trunc", "case": r["obs"]})
     ctx.extra["entry_edits"] = kinds
     # determinism across fresh processes
+    p = ctx.run_driver(["fc-conc", "-rounds", "25" if q else "300"], timeout=3000)
+    for line in p.stdout.splitlines():
+        if line.startswith("{"):
+            r = json.loads(line)
+            ctx.evaluations += 1
+            for f in r.get("fails") or []:
+                ctx.fail(f["key"], f["msg"], replay={"kind": "concurrent-modules"})
     p = ctx.run_driver(["fc-det", "-n", "4" if q else "12"], timeout=3000)
     for l in p.stdout.splitlines():
         r = json.loads(l)
